@@ -305,9 +305,11 @@ class Module:
         tree = ast.parse(self.src, filename=path)
         rw = _DoRewriter()
         self.tree = rw.visit(tree)
-        from .normalise import inline_single_use_helpers, swap_negated_returns, filtered_loops_to_if
+        from .normalise import inline_single_use_helpers, swap_negated_returns, filtered_loops_to_if, guard_continue_to_if, substitute_stable_locals
         self.inlined_helpers = inline_single_use_helpers(self.tree)
         filtered_loops_to_if(self.tree)
+        guard_continue_to_if(self.tree)
+        substitute_stable_locals(self.tree)
         swap_negated_returns(self.tree)
         self.tree = _IfNormaliser().visit(self.tree)
         ast.fix_missing_locations(self.tree)
